@@ -32,7 +32,8 @@ def eqUintUint (a b : Nat) : Bool := a == b
 def eqFloatFloat (a b : F64) : Bool := F64.eq a b
 /-- `complex(a, 0) == b`. -/
 def eqFloatComplex (a re im : F64) : Bool := F64.eq a re && F64.eq 0 im
-/-- `bf, acc := b.Float64(); acc == Exact && a == bf`. -/
+/-- `bf, acc := b.Float64(); acc == Exact && a == bf`  (`ofIntExact?` models `big.Int.Float64`
+    reporting `Exact`: the float equal to `b`, if one exists). -/
 def eqFloatBig (a : F64) (b : Int) : Bool :=
   match F64.ofIntExact? b with
   | some bf => F64.eq a bf
